@@ -68,6 +68,10 @@ func exec(op string) vlib.Res {
 		if f[1] == "serve" {
 			return execED(kv(f[2:]))
 		}
+	case "ch":
+		if f[1] == "run" {
+			return execCH(kv(f[2:]))
+		}
 	case "rl":
 		return execRL(f)
 	case "as":
@@ -552,24 +556,43 @@ func execLad(f []string) vlib.Res {
 		if a["small"] == "1" {
 			s.usz = 512
 		}
+		// the gates in front of both ladders: RD clear, client subnet present, a qtype /
+		// qclass outside the library's tables
+		switch a["pre"] {
+		case "nord":
+			s.rd = false
+		case "ecs":
+			s.ecs = true
+		case "utype":
+			s.qtype = 65280
+		case "uclass":
+			s.qclass = 5
+		}
 		if a["ex"] == "1" {
 			for p := 0; p < 3; p++ {
 				rawSettled(s.build(markers[p], nil, nil), remoteFor(p, "tcp", false, 60000+n))
 			}
 		}
-		seedState(map[string]string{"cut": a["cut"], "fail": strings.ReplaceAll(a["fail"], "-", "")}, names, dns.TypeA, cd)
+		seedState(map[string]string{"cut": a["cut"], "fail": strings.ReplaceAll(a["fail"], "-", ""), "qc": fmt.Sprint(s.qclass)}, names, s.qtype, cd)
 		rung := func(r reply, calls int64) string {
 			switch {
 			case calls > 0:
 				return "miss"
 			case r.m == nil:
-				return "none"
+				return "drop"
 			case r.m.Rcode == dns.RcodeSuccess && len(r.m.Answer) > 0:
 				return "exact"
 			case r.m.Rcode == dns.RcodeNameError:
 				return "cut"
 			case r.m.Rcode == dns.RcodeServerFailure:
-				return "failure"
+				if opt := r.m.IsEdns0(); opt != nil {
+					for _, o := range opt.Option {
+						if e, ok := o.(*dns.EDNS0_EDE); ok && e.InfoCode == dns.ExtendedErrorCodeCachedError {
+							return "failure"
+						}
+					}
+				}
+				return "norec"
 			}
 			return "other"
 		}
